@@ -29,7 +29,8 @@ def run(ctx: Context) -> None:
     for r, t in (("C08.R1", "pool fields accessed only under the pool lock"), ("C08.R2", "state transitions under the state lock"),
                  ("C08.R3", "no re-entry of the non-reentrant pool lock"), ("C08.R4", "no blocking under the pool lock"),
                  ("C08.R5", "lock-order / wait-for graph acyclic"), ("C08.R6", "mutating calls on the shared h2 state machine hold a common lock"),
-                 ("C08.R7", "store-before-set on the assignment event")):
+                 ("C08.R7", "store-before-set on the assignment event"),
+                 ("C08.R8", "h2 drain+write and read+feed are single critical sections (wire order = encoding order)")):
         rep.rule(r, t)
     tree = "sync"
     N = ctx.names(tree)
@@ -102,6 +103,27 @@ def run(ctx: Context) -> None:
            "no lock is common to the calls on the shared h2 state machine: " + ", ".join(f"{k}:{{{','.join(sorted(x.split('.')[-1] for x in v))}}}" for k, v in sorted(locksets.items()))
            + " - two threads uploading on one connection race between local_flow_control_window() and send_data() on the shared connection window",
            {k: sorted(v) for k, v in locksets.items()})
+    # R8 wire order = encoding order: draining h2's output buffer and writing it are one critical section; so are read + feed
+    wo = h2c.methods["_write_outgoing_data"]
+    drains = [c for c in own_nodes(wo.node) if isinstance(c, ast.Call) and norm(c.func) == "self._h2_state.data_to_send"]
+    writes = [c for c in own_nodes(wo.node) if isinstance(c, ast.Call) and norm(c.func) == "self._network_stream.write"]
+    ok = bool(drains) and bool(writes)
+    detail = "drain and write located"
+    if ok:
+        regions_d = [id(w) for w, it in enclosing_withs(drains[0]) if norm(it.context_expr) == "self._write_lock"]
+        regions_w = [id(w) for w, it in enclosing_withs(writes[0]) if norm(it.context_expr) == "self._write_lock"]
+        ok = bool(regions_d) and regions_d == regions_w
+        detail = ("h2's output buffer is drained and written inside one `_write_lock` section" if ok else
+                  "`data_to_send()` and the socket write are not in the same `_write_lock` section: a thread pre-empted between draining and locking writes its (HPACK / stream-id ordered) "
+                  "frames after a later thread's frames - the peer sees a corrupted header-compression state and kills the connection")
+    rep.ob("C08.R8", fkey(tree, wo, "drain-and-write-atomic"), ok, where(wo, drains[0] if drains else None), detail)
+    ri = h2c.methods["_read_incoming_data"]
+    rd = [c for c in own_nodes(ri.node) if isinstance(c, ast.Call) and norm(c.func) == "self._network_stream.read"]
+    fd = [c for c in own_nodes(ri.node) if isinstance(c, ast.Call) and norm(c.func) == "self._h2_state.receive_data"]
+    lk = f"{h2c.name}._read_lock"
+    ok = bool(rd) and bool(fd) and lk in L.must_hold(rd[0], ri) and lk in L.must_hold(fd[0], ri)
+    rep.ob("C08.R8", fkey(tree, ri, "read-and-feed-atomic"), ok, where(ri), "socket read and receive_data happen under the read lock (bytes are fed in arrival order)" if ok else
+           "socket read and receive_data are not both under the read lock: two threads can feed the parser out of order")
     # R7
     a = N.func("connection_pool", "AsyncPoolRequest.assign_to_connection")
     cfg = ctx.cfg(a)
